@@ -125,8 +125,9 @@ func replayNative(repo, hdir string, h *Harness, path string) string {
 	}
 	b, _ := os.ReadFile(path)
 	var rp struct {
-		Kind string `json:"kind"`
-		Tag  string `json:"tag"`
+		Kind  string   `json:"kind"`
+		Tag   string   `json:"tag"`
+		Stack []string `json:"stack"`
 	}
 	json.Unmarshal(b, &rp)
 	cmd := exec.Command(bin, "-test.run", "^TestVerifReplay$", "-test.v", "-test.timeout", "120s")
@@ -149,7 +150,35 @@ func replayNative(repo, hdir string, h *Harness, path string) string {
 			res = strings.TrimSpace(l[i+len("VERIF-REPLAY-RESULT:"):])
 		}
 	}
+	reached := ""
+	for _, l := range strings.Split(txt, "\n") {
+		if i := strings.Index(l, "VERIF-REPLAY-REACHED:"); i >= 0 {
+			reached = strings.TrimSpace(l[i+len("VERIF-REPLAY-REACHED:"):])
+		}
+	}
 	switch rp.Kind {
+	case "witness":
+		// a completed symbolic path: the native run must complete and reach the same tags
+		want := map[string]bool{}
+		for _, t := range rp.Stack {
+			want[t] = true
+		}
+		got := map[string]bool{}
+		for _, t := range strings.Split(reached, ",") {
+			if t != "" {
+				got[t] = true
+			}
+		}
+		same := len(want) == len(got)
+		for t := range want {
+			if !got[t] {
+				same = false
+			}
+		}
+		if res == "completed" && same {
+			return "reproduced"
+		}
+		return fmt.Sprintf("native run diverged from the symbolic path: result=%q reached=%q want=%v", res, reached, rp.Stack)
 	case "assert":
 		if res == "ASSERT-FAILED "+rp.Tag {
 			return "reproduced"
